@@ -107,10 +107,6 @@ func (sb *SampleBlock) Populate(ctx context.Context, eds eds.Accessor) error {
 
 func (sb *SampleBlock) UnmarshalFn(root *share.AxisRoots) UnmarshalFn {
 	return func(cntrData, idData []byte) error {
-		if !sb.Container.IsEmpty() {
-			return nil
-		}
-
 		sid, err := shwap.SampleIDFromBinary(idData)
 		if err != nil {
 			return fmt.Errorf("unmarhaling SampleID: %w", err)
@@ -134,7 +130,11 @@ func (sb *SampleBlock) UnmarshalFn(root *share.AxisRoots) UnmarshalFn {
 			return fmt.Errorf("validating Sample for %+v: %w", sb.ID, err)
 		}
 
-		sb.Container = cntr
+		// every body is verified, also when the Block is already populated: the hasher must
+		// never accept unverified bytes. The container populated first is kept.
+		if sb.Container.IsEmpty() {
+			sb.Container = cntr
+		}
 		return nil
 	}
 }
